@@ -9,30 +9,33 @@
    tags), all initial capacities and any number of chained growth steps.  `event s t i o r` = "the i-th operation `o`
    of thread t has returned r in s".  One model step = one shared access of the C++ code (see HC/HCModel.v).
 
-   PROVED at full strength: at most one successful insertion per key (c03_one_winner); all insertions and lookups of a
-   key return the same slot, fully constructed, holding the winner's argument (c03_same_element, c03_winner_value); a
-   key lives in at most one slot of the whole chain (c03_key_in_one_slot: growth never duplicates); tags / constructed
-   elements / claims never change and tables are only appended (c03_bytes_monotone: growth never drops, and the
-   byte-wise justification for torn SIMD group loads: EMPTY -> BUSY -> tag); a published tag implies a constructed
-   element with that tag, no comparison ever reads raw storage, no slot is constructed twice
-   (c03_published_implies_constructed, c03_constructed_once); the chain/probe invariant (c03_key_position: every table,
-   group and byte the key's probe examines before its slot is a tag of another constructed key).
-
-   PARTIAL (the proved part is named ..._partial, the full statement is the Definition named in the comment and is NOT
-   proved):
-   * c03_find_after_insert_partial: once an insertion of k has returned, in every later state of every continuation
-     schedule k's tag stays published at a position of k's own probe sequence that addresses the returned slot, and the
-     slot keeps the element; together with c03_key_position (no free byte before it) this is the state-level content of
-     "a lookup that starts later never misses it".  Missing: the induction over the steps of the later lookup thread
-     (HCProofs.find_after_insert_stmt, with begin/end stamps).
-   * c03_full_fixed_fails_clean is proved except for one arithmetic link: "every byte of every group of the key's probe
-     sequence is a tag" is stated over the key's own probe sequence; that this sequence covers every bucket of the table
-     (so the table is completely full) is proved for the same regenerated formulas under C18 (HSProofs.tri_surj).
-   * c03_one_winner gives "at most one"; "exactly one in a finished run" (HCProofs.exactly_one_winner_stmt) is not
-     proved (needs the link claim -> finished owner). *)
+   ALL statements below are theorems at full strength (no `_partial` left; `_refuted` only for the deliberately
+   weakened memory orders):
+   * per key at most one insertion reports success, and in a finished run exactly one does (c03_one_winner,
+     c03_exactly_one_winner);
+   * all insertions and lookups of a key return the same slot and saw the same fully constructed element, built from
+     the winner's arguments (c03_same_element, c03_winner_value);
+   * a lookup whose begin stamp is after the end stamp of an insertion of its key that returned a slot returns that
+     slot (c03_find_after_insert; c03_insert_stays_visible is its state-level core);
+   * a key lives in at most one slot of the whole chain (c03_key_in_one_slot: growth never duplicates); tags,
+     constructed elements and claims never change and tables are only appended (c03_bytes_monotone: growth never
+     drops; also the byte-wise justification for torn SIMD group loads, EMPTY -> BUSY -> tag);
+   * a published tag (slot or mirror) implies a constructed element with that tag, no comparison ever reads raw
+     storage, no slot is constructed twice (c03_published_implies_constructed, c03_constructed_once);
+   * chain / probe invariant (c03_key_position);
+   * a failing insertion never took the construction step (argument not consumed) and found every byte of every group
+     of its probe sequence the tag of another constructed key (c03_full_fixed_fails_clean).  One arithmetic link is
+     imported rather than re-proved: that this probe sequence covers every bucket (so the table is completely full) is
+     HSProofs.tri_surj, proved for the same regenerated formulas under C18.
+   * release/acquire publication on the explicit RA machine (coq/WM/RA.v), with the orders computed from the
+     regenerated site tables: tag / mirror-tag publication (release store vs. plain group load + acquire fence) and
+     chained-table publication (next CAS vs. acquire loads, and the CAS loser), each for ALL executions of the machine;
+     every weakening has a bad execution (`_refuted`).
+   The interleaving theorems are about sequentially consistent interleavings with the SIMD group load as one step. *)
 From Coq Require Import ZArith List Bool.
+Require Import Verif.Base.Atomics Verif.WM.RA Verif.WM.RALitmus Verif.HC.HCLitmus Verif.HC.HCLitmusProofs.
 Require Import Verif.Gen.Gen_hash_table Verif.Gen.Gen_hash_table_conc Verif.Conc.Machine Verif.HS.HSModel
-               Verif.HC.HCModel Verif.HC.HCProofs.
+               Verif.HC.HCModel Verif.HC.HCProofs Verif.HC.HCLin.
 Import ListNotations.
 Local Open Scope Z_scope.
 
@@ -43,6 +46,14 @@ Theorem c03_one_winner : forall hash cap g progs s t1 i1 o1 n1 x1 s1 t2 i2 o2 n2
   t1 = t2 /\ i1 = i2.
 Proof. exact hc_one_winner. Qed.
 Print Assumptions c03_one_winner.
+
+(* ... and in a finished run exactly one does: whenever some insertion of the key returned a slot, an insertion of that
+   key returned that slot with inserted = true *)
+Theorem c03_exactly_one_winner : forall hash cap g progs s t i o r n x sn,
+  Reach hash cap g progs s -> all_done s = true -> event s t i o r -> is_find o = false -> slot_of r = Some (n, x, sn) ->
+  exists t' i' o' sn', event s t' i' o' (REmp n x true sn') /\ okey o' = okey o.
+Proof. exact hc_exactly_one_winner. Qed.
+Print Assumptions c03_exactly_one_winner.
 
 (* all insertions and lookups of a key return the same slot and saw the same fully constructed element of that key *)
 Theorem c03_same_element : forall hash cap g progs s t1 i1 o1 r1 n1 x1 s1 t2 i2 o2 r2 n2 x2 s2,
@@ -101,14 +112,25 @@ Theorem c03_key_position : forall hash cap g progs s n tn i k v,
 Proof. exact hc_key_position. Qed.
 Print Assumptions c03_key_position.
 
-Theorem c03_find_after_insert_partial : forall hash cap g progs s sch t i o n x ins seen,
+(* a lookup that starts after an insertion of the key returned never misses it: begin stamp of the lookup after the
+   end stamp of the insertion => the lookup returns the insertion's slot *)
+Theorem c03_find_after_insert : forall hash cap g progs s t i o r b e t' i' o' r' b' e' n x sn,
+  Reach hash cap g progs s -> event_st s t i o r b e -> is_find o = false -> slot_of r = Some (n, x, sn) ->
+  event_st s t' i' o' r' b' e' -> is_find o' = true -> okey o' = okey o -> (e < b')%nat ->
+  exists sn', slot_of r' = Some (n, x, sn').
+Proof. exact hc_find_after_insert. Qed.
+Print Assumptions c03_find_after_insert.
+
+(* state-level core: once an insertion of k has returned, along every continuation schedule k's tag stays published at
+   a position of k's own probe sequence that addresses the returned slot and the slot keeps the element *)
+Theorem c03_insert_stays_visible : forall hash cap g progs s sch t i o n x ins seen,
   Reach hash cap g progs s -> event s t i o (REmp n x ins seen) ->
   exists tn' v j c, nth_error (tabs (Machine.run st (step hash) s sch)) n = Some tn' /\
     seen = Some (okey o, v) /\ cvals tn' x = Some (okey o, v) /\ In c offsets /\
     emp_loop_cond (ps hash tn' (okey o) j) (cmask tn') = true /\ Z.land (pb hash tn' (okey o) j + c) (cmask tn') = x /\
     cctrl tn' (pb hash tn' (okey o) j + c) = emp_checker (hash (okey o)).
 Proof. exact hc_insert_stays_visible. Qed.
-Print Assumptions c03_find_after_insert_partial.
+Print Assumptions c03_insert_stays_visible.
 
 (* insertion into a full fixed table fails without consuming its arguments: the failing operation is an insertion, it
    never took the construction step (the only step that consumes), and every byte of every group of its probe sequence
@@ -119,6 +141,64 @@ Theorem c03_full_fixed_fails_clean : forall hash cap g progs s t i o,
   exists t0, nth_error (tabs s) 0 = Some t0 /\ tab_passed hash t0 (okey o).
 Proof. exact hc_full_fails_clean. Qed.
 Print Assumptions c03_full_fixed_fails_clean.
+
+(* ---- release/acquire publication, all executions of the RA machine, orders from the regenerated site tables ---- *)
+(* tag publication: producer = construct; control.store(tag, o_store); reader = group load; fence(o_fence); read slot *)
+Theorem c03_tag_publication_all_executions : forall sch,
+  RA.final (RA.run (RA.init (mp_store_fence tag_store_order find_fence_order)) sch) = true ->
+  mp_bad (RA.result (RA.run (RA.init (mp_store_fence tag_store_order find_fence_order)) sch)) = false.
+Proof. exact hc_tag_publication_find. Qed.
+Print Assumptions c03_tag_publication_all_executions.
+Theorem c03_mirror_publication_all_executions : forall sch,
+  RA.final (RA.run (RA.init (mp_store_fence mirror_store_order find_fence_order)) sch) = true ->
+  mp_bad (RA.result (RA.run (RA.init (mp_store_fence mirror_store_order find_fence_order)) sch)) = false.
+Proof. exact hc_mirror_publication_find. Qed.
+Theorem c03_tag_publication_emplace_all_executions : forall sch,
+  RA.final (RA.run (RA.init (mp_store_fence tag_store_order emplace_fence_order)) sch) = true ->
+  mp_bad (RA.result (RA.run (RA.init (mp_store_fence tag_store_order emplace_fence_order)) sch)) = false.
+Proof. exact hc_tag_publication_emplace. Qed.
+Theorem c03_mirror_publication_emplace_all_executions : forall sch,
+  RA.final (RA.run (RA.init (mp_store_fence mirror_store_order emplace_fence_order)) sch) = true ->
+  mp_bad (RA.result (RA.run (RA.init (mp_store_fence mirror_store_order emplace_fence_order)) sch)) = false.
+Proof. exact hc_mirror_publication_emplace. Qed.
+(* spelled out: a reader whose group load saw the tag reads the constructed element, and no access raced *)
+Theorem c03_tag_publication_spelled : forall sch,
+  let s := RA.run (RA.init (mp_store_fence tag_store_order find_fence_order)) sch in
+  RA.final s = true -> oreg (RA.result s) 1 0 = 1 -> oracy (RA.result s) = false /\ oreg (RA.result s) 1 1 = 42.
+Proof. exact hc_tag_publication_spelled. Qed.
+(* chained tables: next.compare_exchange_strong(null -> node) vs the acquire loads of find (head, node) and emplace *)
+Theorem c03_next_publication_find_head_all_executions : forall sch,
+  RA.final (RA.run (RA.init (mp_cas_publish next_cas_order next_load_find_head_order)) sch) = true ->
+  mp_cas_bad (RA.result (RA.run (RA.init (mp_cas_publish next_cas_order next_load_find_head_order)) sch)) = false.
+Proof. exact hc_next_publication_find_head. Qed.
+Print Assumptions c03_next_publication_find_head_all_executions.
+Theorem c03_next_publication_find_node_all_executions : forall sch,
+  RA.final (RA.run (RA.init (mp_cas_publish next_cas_order next_load_find_node_order)) sch) = true ->
+  mp_cas_bad (RA.result (RA.run (RA.init (mp_cas_publish next_cas_order next_load_find_node_order)) sch)) = false.
+Proof. exact hc_next_publication_find_node. Qed.
+Theorem c03_next_publication_emplace_all_executions : forall sch,
+  RA.final (RA.run (RA.init (mp_cas_publish next_cas_order next_load_emplace_order)) sch) = true ->
+  mp_cas_bad (RA.result (RA.run (RA.init (mp_cas_publish next_cas_order next_load_emplace_order)) sch)) = false.
+Proof. exact hc_next_publication_emplace. Qed.
+(* the loser of the next CAS goes on in the winner's table *)
+Theorem c03_next_cas_loser_all_executions : has_acquire next_cas_fail_order = true /\ forall sch,
+  RA.final (RA.run (RA.init (mp_cas_loser next_cas_order)) sch) = true ->
+  mp_loser_bad (RA.result (RA.run (RA.init (mp_cas_loser next_cas_order)) sch)) = false.
+Proof. exact hc_next_cas_loser. Qed.
+Print Assumptions c03_next_cas_loser_all_executions.
+(* each weakened order has a bad execution (complete explorer: false = some outcome is bad) *)
+Theorem c03_tag_relaxed_store_refuted : mp_store_fence_safe Relaxed Acquire = false.
+Proof. exact hc_tag_relaxed_store_refuted. Qed.
+Theorem c03_tag_no_acquire_fence_refuted : mp_store_fence_safe Release Relaxed = false.
+Proof. exact hc_tag_no_acquire_fence_refuted. Qed.
+Theorem c03_next_relaxed_cas_refuted : mp_cas_safe Relaxed Acquire = false.
+Proof. exact hc_next_relaxed_cas_refuted. Qed.
+Theorem c03_next_acquire_only_cas_refuted : mp_cas_safe Acquire Acquire = false.
+Proof. exact hc_next_acquire_only_cas_refuted. Qed.
+Theorem c03_next_relaxed_load_refuted : mp_cas_safe AcqRel Relaxed = false.
+Proof. exact hc_next_relaxed_load_refuted. Qed.
+Theorem c03_next_loser_release_only_refuted : mp_cas_loser_safe Release = false.
+Proof. exact hc_next_loser_release_only_refuted. Qed.
 
 (* the memory orders the argument relies on are the ones in the source (regenerated site tables): acquire fence after
    the group load, acquire CAS, release stores of the tag, acquire load / acq_rel CAS of the next pointer *)
